@@ -29,6 +29,8 @@ func runC09(c *Ctx) {
 	}
 	ruleBind(c, a)
 	ruleDedup(c, a)
+	// every listener the validator accepts is started: Validate and the start code test the listener type itself, the same way
+	ruleValidate(c, a)
 	ruleSearch(c, "SEARCH", 2)
 	ruleSnapshot(c) // every key bound to the listener is tried, whatever the last-client-IP state
 	ruleRegister(c, "REGISTER")
